@@ -6,6 +6,8 @@ dictionary form is the form the reader's dictionary branch accepts.  Round-trip 
 (numbers, exponents, quoting, nesting) is NOT decided: it quantifies over runtime values.
 """
 import ast
+from ..flow import atoms_at
+import re
 
 from ..model import AnalysisError, src, callee_name, dotted, walk_local, calls_in, FUNC
 from ..callgraph import CallGraph
@@ -123,8 +125,88 @@ def check(ctx):
     ctx.ob("C11-R2", kr.fq, "the reader's ':{' branch reads pairs up to '}'", ok, node=kr.node, construct="reader dictionary delimiters")
     ctx.rule("C11-R3", "the reader entry points (.r, .rs) pass the text unmodified, from offset 0, with the same reader options (negative numbers enabled)")
     ctx.rule("C11-R4", "TABLE-AGREE(token forms): symbol ':x', character '0cx', string with doubled quotes, blank-separated bracketed lists - writer constants versus the reader's dispatch")
+    ctx.rule("C11-R5", "real numbers are written with Python's shortest round-trip text (str/repr) or at least 17 significant digits; no fixed-precision format sits between the value and its written form")
+    ctx.rule("C11-R6", "Form to a string target is the identity on the text: every return of the form function that a string `a` can reach returns `b` itself")
     _entry_points(ctx, repo, cg)
     _token_forms(ctx, repo)
+    _float_writer(ctx, repo)
+    _form_identity(ctx, repo)
+
+
+def _spec_precision(spec):
+    """(precision, type) of a format spec / printf conversion, or None"""
+    m = re.search(r"\.(\d+)([a-zA-Z%]?)", spec)
+    if m:
+        return int(m.group(1)), (m.group(2) or "g")
+    m = re.search(r"([eEfFgG%])$", spec)
+    if m:
+        return 6, m.group(1)          # default precision
+    return None
+
+
+def _float_writer(ctx, repo):
+    f = repo.fn("writer:kg_write_float")
+    ctx.instance("C11-R5", f.fq)
+    val = f.params()[0]
+    specs = []
+    for n in walk_local(f.node):
+        if isinstance(n, ast.Call) and callee_name(n) == "format" and isinstance(n.func, ast.Name) and len(n.args) == 2 and isinstance(n.args[1], ast.Constant):
+            specs.append((n, str(n.args[1].value)))
+        elif isinstance(n, ast.Call) and isinstance(n.func, ast.Attribute) and n.func.attr == "format" and isinstance(n.func.value, ast.Constant) and isinstance(n.func.value.value, str):
+            for m in re.finditer(r"\{[^}]*:([^}]*)\}", n.func.value.value):
+                specs.append((n, m.group(1)))
+        elif isinstance(n, ast.FormattedValue) and n.format_spec is not None:
+            specs.append((n, "".join(v.value for v in n.format_spec.values if isinstance(v, ast.Constant))))
+        elif isinstance(n, ast.BinOp) and isinstance(n.op, ast.Mod) and isinstance(n.left, ast.Constant) and isinstance(n.left.value, str):
+            for m in re.finditer(r"%[-+ #0]*\d*(\.\d+)?[eEfFgG]", n.left.value):
+                specs.append((n, m.group(0)[1:]))
+        elif isinstance(n, ast.Call) and callee_name(n) in ("round", "format_float_positional", "format_float_scientific", "around"):
+            specs.append((n, ".0f"))
+    for node, spec in specs:
+        pp = _spec_precision(spec)
+        ok = pp is None or (pp[1] in "gG" and pp[0] >= 17) or (pp[1] in "eE" and pp[0] >= 16)
+        ctx.ob("C11-R5", f.fq, f"format `{spec}` keeps at least 17 significant digits", ok, node=node, construct=f"real written with fixed precision `{spec}`",
+               msg=f"reals are written through `{spec}`: doubles that need 17 significant digits (0.1+0.2, the largest double) are written as a neighbouring value (or as inf) and do not read back to the same number")
+    conv = [c for c in calls_in(f.node) if callee_name(c) in ("str", "repr") and c.args and any(isinstance(x, ast.Name) and x.id == val for x in ast.walk(c.args[0]))]
+    ctx.ob("C11-R5", f.fq, "the written form comes from str()/repr() of the value or from a reviewed >=17-digit format", bool(conv) or bool(specs), node=f.node, construct="real writer uses shortest round-trip text",
+           msg="the real writer neither calls str()/repr() on the value nor formats it with a recognised spec")
+    ctx.control("C11-R5", "format-spec parsing recognises '.16g' as 16 significant digits", _spec_precision(".16g") == (16, "g") and _spec_precision("{:.6f}") == (6, "f"))
+
+
+def _form_identity(ctx, repo):
+    m = repo.module("dyads")
+    f = next((g for g in m.funcs.values() if g.name.endswith("e_dyad_form") and g.name.startswith("__")), None)
+    if f is None:
+        raise AnalysisError("scalar Form implementation (__e_dyad_form) not found")
+    ctx.instance("C11-R6", f.fq)
+    a, b = f.params()[0], f.params()[1]
+
+    def type_guards(node):
+        """positive facts about the type of `a` that hold at node: set of class/predicate names"""
+        out = set()
+        for e, pol in atoms_at(node, f.node):
+            if not pol or not isinstance(e, ast.Call):
+                continue
+            if callee_name(e) == "isinstance" and len(e.args) == 2 and src(e.args[0]) == a:
+                out.add(src(e.args[1]))
+            elif isinstance(e.func, ast.Attribute) and e.func.attr.startswith("is_") and e.args and src(e.args[0]) == a:
+                out.add(e.func.attr)
+        return out
+    n_ret = 0
+    for r in [n for n in walk_local(f.node) if isinstance(n, ast.Return)]:
+        g = type_guards(r)
+        if g and not g <= {"str"}:
+            continue           # an arm for a non-string target
+        n_ret += 1
+        ok = isinstance(r.value, ast.Name) and r.value.id == b
+        ctx.ob("C11-R6", f.fq, f"the return reachable for a string target returns `{b}` itself", ok, node=r, construct=f"string Form returns {src(r.value)[:40] if r.value is not None else 'None'}",
+               msg=f"Form with a string target returns `{src(r.value) if r.value is not None else None}` instead of the text unchanged: x:$$x no longer matches x for strings the transformation touches (surrounding quotes, blanks, ...)")
+    ctx.floor("C11-R6", "returns reachable for a string target", n_ret, 1)
+    for n in walk_local(f.node):
+        if isinstance(n, ast.Assign) and any(isinstance(t, ast.Name) and t.id == b for t in n.targets):
+            g = type_guards(n)
+            ctx.ob("C11-R6", f.fq, f"`{b}` is only rebound inside an arm for a non-string target", bool(g) and not g <= {"str"}, node=n, construct=f"{b} rebound on the string path",
+                   msg=f"`{b}` is modified before the string arm returns it")
 
 
 def _entry_points(ctx, repo, cg):
@@ -230,6 +312,12 @@ MUTATION_SCOPE = ['sys_fn:eval_sys_read',
                   'parser:kg_read_array']
 
 SEEDS = [
+    Seed("float-16g", "fault", "writer", "def kg_write_float(x, display=False):\n    return str(x)", "def kg_write_float(x, display=False):\n    s = format(float(x), '.16g')\n    return s if any(c in s for c in '.en') else s + '.0'", rule="C11-R5"),
+    Seed("float-fixed-6", "fault", "writer", "def kg_write_float(x, display=False):\n    return str(x)", "def kg_write_float(x, display=False):\n    return f'{x:.6f}'", rule="C11-R5"),
+    Seed("refactor-float-repr", "refactor", "writer", "def kg_write_float(x, display=False):\n    return str(x)", "def kg_write_float(x, display=False):\n    s = repr(float(x))\n    return s"),
+    Seed("refactor-float-17g", "refactor", "writer", "def kg_write_float(x, display=False):\n    return str(x)", "def kg_write_float(x, display=False):\n    return str(x) if display else format(x, '.17g')"),
+    Seed("form-strips-quotes", "fault", "dyads", "        return KGChar(str(b)[0])\n    return b", "        return KGChar(str(b)[0])\n    if isinstance(a,str) and len(b) > 1 and b[0] == b[-1] == '\"':\n        return b[1:-1]\n    return b", rule="C11-R6"),
+    Seed("form-strips-blanks", "fault", "dyads", "        return KGChar(str(b)[0])\n    return b", "        return KGChar(str(b)[0])\n    return b.strip()", rule="C11-R6"),
     Seed("rs-evaluates-literal", "refactor", "sys_fn", "    _, a = kg_read_array(x, 0, klong._backend, module=klong.current_module(), read_neg=True)\n    return a",
          "    _, a = kg_read_array(x, 0, klong._backend, module=klong.current_module(), read_neg=True)\n    b = a\n    return a"),
     Seed("rs-strips-text", "fault", "sys_fn", "    _, a = kg_read_array(x, 0, klong._backend, module=klong.current_module(), read_neg=True)\n    return a", "    _, a = kg_read_array(x.strip(), 0, klong._backend, module=klong.current_module(), read_neg=True)\n    return a", rule="C11-R3"),
